@@ -207,7 +207,7 @@ def lockBase (db : DB) (c : Cmd) : LockBranch → W
 theorem applyLock_fr (db : DB) (c : Cmd) (data : Option Bytes) (b : LockBranch) : Fr (lockBase db c b) (applyLock db c data b) := by
   cases b with
   | p0a => exact Fr.reply _ _ _ _ _
-  | p0b => exact ⟨rfl, rfl, rfl, fun _ => rfl, ⟨_, rfl⟩, id, id, Nat.le_refl _, Or.inl ⟨rfl, rfl, rfl⟩⟩
+  | p0b => exact ⟨rfl, rfl, rfl, fun _ => rfl, ⟨_, rfl⟩, id, id, Nat.le_refl _, Or.inl ⟨rfl, rfl, rfl⟩, Nat.le_refl _⟩
   | stateError => exact (Fr.removeIfZero _).trans (Fr.reply _ _ _ _ _)
   | «show» cur => exact Fr.reply _ _ _ _ _
   | updateEqual h => exact Fr.reply _ _ _ _ _
@@ -250,7 +250,7 @@ theorem applyLock_fr (db : DB) (c : Cmd) (data : Option Bytes) (b : LockBranch) 
 
 theorem applyUnlock_fr (db : DB) (c : Cmd) (data : Option Bytes) (b : UnlockBranch) : Fr (db.openKey c.key) (applyUnlock db c data b) := by
   cases b with
-  | noManager => exact ⟨rfl, rfl, rfl, fun _ => rfl, ⟨_, rfl⟩, id, id, Nat.le_refl _, Or.inl ⟨rfl, rfl, rfl⟩⟩
+  | noManager => exact ⟨rfl, rfl, rfl, fun _ => rfl, ⟨_, rfl⟩, id, id, Nat.le_refl _, Or.inl ⟨rfl, rfl, rfl⟩, Nat.le_refl _⟩
   | stateError | notLocked | unown | cancelNone => exact (FQ.bumpErr _).fr.trans (Fr.reply _ _ _ _ _)
   | cancel x =>
     simp only [applyUnlock]
